@@ -35,6 +35,8 @@ def plan(tier, seed):
     for i in range(4 if tier == "quick" else 16):
         shards.append({"kind": "misc", "part": i, "parts": 4 if tier == "quick" else 16, "tier": tier, "_name": f"misc-{i}"})
     shards.append({"kind": "contracts", "tier": tier, "_name": "contracts"})
+    for i in range(3 if tier == "quick" else 24):
+        shards.append({"kind": "cold", "part": i, "tier": tier, "_name": f"cold-{i}"})
     return shards
 
 
@@ -125,12 +127,67 @@ def run_misc(shard, mon):
     mon.sample({"family": "W7", "text": esc(rand_text(rng))})
 
 
+def run_cold(shard, mon):
+    """Totality also holds for the very first calls of a process made from several threads at once."""
+    import sys  # noqa: PLC0415
+    import threading  # noqa: PLC0415
+
+    S = judge.lib()
+    table = data.countries()
+    rng = env.rng("C05", "cold", shard["part"])
+    first = {k[1]: v[0] for k, v in lookup.by_key().items() if k[0] == "DE"}
+    codes = sorted(first)
+    texts = []
+    for _ in range(8):
+        r = rng.random()
+        if r < 0.5:
+            t = R.make_iban("DE", rng.choice(codes) + "".join(rng.choice(R.DIGITS) for _ in range(10)))
+        elif r < 0.8:
+            cc = rng.choice(sorted(table))
+            t = R.make_iban(cc, gen.random_bban(table[cc], rng))
+        else:
+            t = gen.edit_fuzz(R.make_iban("FR", gen.random_bban(table["FR"], rng)), rng, 2)
+        texts.append(t)
+    outs = {}
+    start = threading.Barrier(len(texts))
+    sys.setswitchinterval(1e-6)
+
+    def body(i):
+        start.wait()
+        o1 = judge.observe(S.IBAN, texts[i], validate_bban=True)
+        o2 = judge.observe(lambda: S.IBAN(texts[i], allow_invalid=True).is_valid)
+        o3 = judge.observe(S.BIC, "GENODEM1GLS" if i % 2 else texts[i][:8])
+        outs[i] = (o1, o2, o3)
+
+    ts = [threading.Thread(target=body, args=(i,), daemon=True) for i in range(len(texts))]
+    for t in ts:
+        t.start()
+    for t in ts:
+        t.join(300)
+    for i, (o1, o2, o3) in outs.items():
+        mon.ev(3)
+        mon.distinct(("cold", shard["part"], i))
+        w = {"text": esc(texts[i]), "threads": len(texts), "first_calls_of_process": True}
+        for name, o in (("ctor", o1), ("bic", o3)):
+            if not o.ok and not judge.is_lib_exc(o.exc):
+                mon.viol(f"escape:{name}:{o.exc_name}:cold_start_threads", w, "only SchwiftyException subclasses", o.brief())
+        if not o2.ok:
+            mon.viol(f"is_valid_raised:{o2.exc_name}:cold_start_threads", w, "True/False", o2.brief())
+        again = judge.observe(S.IBAN, texts[i], validate_bban=True)
+        if again.ok != o1.ok or (not again.ok and again.exc_name != o1.exc_name):
+            mon.viol("cold_start_threads_outcome_differs_from_later_solo", w, again.brief(), o1.brief())
+    mon.tally("cold_thread_starts")
+
+
 def run_shard(shard, out_base):
     if shard.get("kind") == "contracts":
         from vf import suite  # noqa: PLC0415
 
         return suite.run_contract_shard("C05", out_base)
     mon = Mon("C05")
+    if shard["kind"] == "cold":
+        run_cold(shard, mon)
+        return mon.result(out_base)
     judge.lib()
     (run_iban if shard["kind"] == "iban" else run_misc)(shard, mon)
     return mon.result(out_base)
